@@ -2,6 +2,7 @@ package main
 
 import (
 	"fmt"
+	"math/rand"
 	"net/http"
 	"net/http/httptest"
 	"net/url"
@@ -97,6 +98,14 @@ type neverReady struct{}
 func (neverReady) Rating() float64           { return 0 }
 func (neverReady) Record(int, time.Duration) {}
 func (neverReady) IsReady() bool             { return false }
+
+// flapMeter: always ready, rates its server differently every time it is asked, so that the rebalancer keeps adjusting
+// (and converging back) whenever its back-off allows.
+type flapMeter struct{ rng *rand.Rand }
+
+func (m *flapMeter) Rating() float64           { return []float64{0, 0, 0.3, 1, 0.3}[m.rng.Intn(5)] }
+func (m *flapMeter) Record(int, time.Duration) {}
+func (m *flapMeter) IsReady() bool             { return true }
 
 var _ = memmetrics.SplitRatios
 
@@ -215,8 +224,14 @@ func newRRSubject(cfg M, seed int64) *rrSubject {
 		fatal("rr.New: %v", err)
 	}
 	s.rr = rr
-	if subject == "rb" {
-		rbopts = append(rbopts, roundrobin.RebalancerMeter(func() (roundrobin.Meter, error) { return neverReady{}, nil }))
+	if subject == "rb" || subject == "rba" {
+		if subject == "rba" {
+			mrng := rand.New(rand.NewSource(seed*31 + 7))
+			rbopts = append(rbopts, roundrobin.RebalancerBackoff(time.Second),
+				roundrobin.RebalancerMeter(func() (roundrobin.Meter, error) { return &flapMeter{rng: mrng}, nil }))
+		} else {
+			rbopts = append(rbopts, roundrobin.RebalancerMeter(func() (roundrobin.Meter, error) { return neverReady{}, nil }))
+		}
 		if s.sticky != nil {
 			rbopts = append(rbopts, roundrobin.RebalancerStickySession(s.sticky))
 		}
